@@ -29,7 +29,9 @@ REMOVE_STUBS = {f"{TC}::TunnelCommunity.remove_relay": {"event": "remove_relay",
 # ---------------------------------------------------------------------------------------------------------------------
 # destroy: only from the adjacent node of exactly that entry (peer = authenticated sender, C01)
 contract(f"{TC}::TunnelCommunity.on_destroy", "on_destroy.only-adjacent-node",
-         vars={"hc1": HOP(), "self": COMMUNITY(), "peer": PEER_OBJ(),
+         # (own circuits may be in the middle of an extension: the node being extended to - unverified_hop - is NOT adjacent and not verified)
+         vars={"hc1": HOP(), "self": COMMUNITY(circuits=DICTOBJ(INT, CIRCUIT("[hc1]", unverified_hop=OPT(HOP(keys=False))), where="v.circuit_id == k")),
+               "peer": PEER_OBJ(),
                "payload": OBJ(f"{PL}::DestroyPayload", circuit_id=INT, reason=INT),
                "H": EXPR(f"undecorated({TCLS}, 'on_destroy')")},
          call="H(self, peer, payload)", raises=[],
